@@ -33,6 +33,11 @@ type Program struct {
 	allFns    map[*packages.Package][]*Func
 	ssa       *SSAProgram
 	BuildDesc string
+
+	// InlineKeep, when non-nil, makes Func and FuncOpt return the normalised
+	// form of anchor functions: calls of small helpers of the same package
+	// are inlined, except calls of the functions listed here (key suffixes).
+	InlineKeep []string
 }
 
 // Func is a function or method declared in the repository.
@@ -45,6 +50,12 @@ type Func struct {
 
 	cfgOnce sync.Once
 	graph   *Graph
+
+	inlMu     sync.Mutex
+	inlinedBy map[string]*Func
+	// InlinedCalls is the number of calls inlined into this copy (0 for
+	// functions as declared).
+	InlinedCalls int
 }
 
 // RepoDir returns the directory of the repository under analysis.
@@ -270,13 +281,30 @@ func (p *Program) Func(shortPkg, name string) *Func {
 	return f
 }
 
+// RawFunc is Func without normalisation.
+func (p *Program) RawFunc(shortPkg, name string) *Func {
+	pkg := p.Pkg(shortPkg)
+	p.Funcs(pkg)
+	p.mu.Lock()
+	defer p.mu.Unlock()
+	f := p.funcs[shortPkg+"."+name]
+	if f == nil {
+		panic(AnchorError{fmt.Sprintf("function %s.%s not found", shortPkg, name)})
+	}
+	return f
+}
+
 // FuncOpt is like Func but returns nil when the function does not exist.
 func (p *Program) FuncOpt(shortPkg, name string) *Func {
 	pkg := p.Pkg(shortPkg)
 	p.Funcs(pkg)
 	p.mu.Lock()
-	defer p.mu.Unlock()
-	return p.funcs[shortPkg+"."+name]
+	f := p.funcs[shortPkg+"."+name]
+	p.mu.Unlock()
+	if f != nil && p.InlineKeep != nil {
+		return f.Inlined(p.InlineKeep...)
+	}
+	return f
 }
 
 // FuncOf returns the declared function for a function object, or nil.
